@@ -90,6 +90,8 @@ package parse
 //@   ensures[F]  forall(i, 0, len(b), result.buf[i] == old(b[i]))
 //@   ensures[F,C12] @frame: sameBytesExcept(ptr(b)+len(b), ptr(b)+len(b)+1)
 //@   ensures[F,C12] @borrow: len(b) == 0 || cap(b) == len(b) ==> sameBytesExcept(0, 0)
+// a byte of the caller's memory is overwritten only if a restore function is installed to put it back
+//@   ensures[F,C12] @restorable: result.restore == nil ==> sameBytesExcept(0, 0)
 
 //@ func NewInputString
 //@   ensures[S]  result != nil && bufInv(result) && result.pos == 0 && result.start == 0
